@@ -156,6 +156,7 @@ func buildNego(c *Case) (*built, error) {
 	if !b.preds[oi+1].dead || b.preds[oi].dead || msize != c.Msize {
 		return nil, fmt.Errorf("harness: the oversize frame is not the first frame above the negotiated msize")
 	}
+	b.deadWhy = fmt.Sprintf("frame %d has %d bytes and the msize negotiated by the stream's Tversion is %d", oi+1, g.OverSize, c.Msize)
 	return b, nil
 }
 
@@ -212,8 +213,14 @@ func diffNego(a, b *obs) string {
 }
 
 func runNego(c *Case, b *built, cuts []int) (*obs, error) {
-	g := c.Nego
-	sv := script.NewServer(script.Config{Msize: g.SrvMsize, Dotu: c.Dotu})
+	return runDrop(c, b, cuts, c.Nego.SrvMsize)
+}
+
+// runDrop delivers a stream that contains a frame at which the server has to
+// end the session (b.deadWhy says which frame and why; every pred from it on is
+// marked dead) to a server started with srvMsize, and judges the delivery.
+func runDrop(c *Case, b *built, cuts []int, srvMsize uint32) (*obs, error) {
+	sv := script.NewServer(script.Config{Msize: srvMsize, Dotu: c.Dotu})
 	ctl := &hookLog{}
 	defer ctl.install()()
 	end := sv.Dial("c13")
@@ -225,11 +232,11 @@ func runNego(c *Case, b *built, cuts []int) (*obs, error) {
 		ver = "9P2000.u"
 	}
 	cl.Timeout = hangAfter
-	rv, err := cl.Version(g.SrvMsize, ver)
+	rv, err := cl.Version(srvMsize, ver)
 	if err == rawc.ErrTimeout {
 		return nil, hangErr("prologue: Tversion unanswered")
 	}
-	if err != nil || rv.Type != ref9p.Rversion || rv.Msize != g.SrvMsize || cl.Dotu != c.Dotu {
+	if err != nil || rv.Type != ref9p.Rversion || rv.Msize != srvMsize || cl.Dotu != c.Dotu {
 		return nil, fmt.Errorf("prologue: Tversion: %v %+v", err, rv)
 	}
 	if err := r.batch([]*ref9p.Msg{{Type: ref9p.Tattach, Fid: 0, Afid: ref9p.NOFID, Uname: "alice", Nuname: 1001}}); err != nil {
@@ -316,7 +323,7 @@ func runNego(c *Case, b *built, cuts []int) (*obs, error) {
 			idle = 0
 		}
 		if time.Since(start) > hangAfter {
-			return nil, hangErr("negotiation stream: the server neither hung up nor went idle")
+			return nil, hangErr("stream with a frame that ends the session: the server neither hung up nor went idle")
 		}
 	}
 	if hungup {
@@ -347,7 +354,7 @@ func runNego(c *Case, b *built, cuts []int) (*obs, error) {
 		case p == nil:
 			return nil, fmt.Errorf("the implementation was invoked for tag %d (%s), which no request of the stream carries", tag, whoOf(m))
 		case p.dead:
-			return nil, fmt.Errorf("frame %d (%s, tag %d, %d bytes) reached the implementation although frame %d has %d bytes and the msize negotiated by the stream's Tversion is %d", p.idx, p.who, tag, b.frameLen(p.idx), len(c.Frames)+1, g.OverSize, c.Msize)
+			return nil, fmt.Errorf("frame %d (%s, tag %d, %d bytes) reached the implementation (as %s) although %s", p.idx, p.who, tag, b.frameLen(p.idx), describe(m), b.deadWhy)
 		case !p.impl:
 			return nil, fmt.Errorf("frame %d (%s) reached the implementation", p.idx, p.who)
 		}
@@ -364,26 +371,26 @@ func runNego(c *Case, b *built, cuts []int) (*obs, error) {
 	}
 	for i, who := range o.dispatch {
 		if i >= live {
-			return nil, fmt.Errorf("request %s was dispatched although it follows (or is) the frame of %d bytes that exceeds the negotiated msize %d", who, g.OverSize, c.Msize)
+			return nil, fmt.Errorf("request %s was dispatched (as number %d since the start of the stream) although %s", who, i, b.deadWhy)
 		}
 		if who != b.preds[i].who {
 			return nil, fmt.Errorf("request %d in dispatch order is %s, frame %d of the stream is %s (dispatched since the start of the stream: %v; before: %v)", i, who, i, b.preds[i].who, o.dispatch, ctl.dispatched()[:evStart])
 		}
 	}
 	if !hungup {
-		return nil, fmt.Errorf("the server took the whole stream and did not hang up although frame %d has %d bytes and the msize negotiated by the stream's Tversion is %d", len(c.Frames)+1, g.OverSize, c.Msize)
+		return nil, fmt.Errorf("the server took the whole stream and did not hang up although %s", b.deadWhy)
 	}
 	if len(o.dispatch) != live {
-		return nil, fmt.Errorf("%d requests dispatched before the hang-up, %d frames precede the oversize frame", len(o.dispatch), live)
+		return nil, fmt.Errorf("%d requests dispatched before the hang-up, %d frames precede the frame that ends the session (%s)", len(o.dispatch), live, b.deadWhy)
 	}
 	if !forced {
 		for _, p := range b.preds[:live] {
 			if p.impl && o.enter[p.tag] == nil {
-				return nil, fmt.Errorf("frame %d (%s, tag %d) precedes the oversize frame but never reached the implementation", p.idx, p.who, p.tag)
+				return nil, fmt.Errorf("frame %d (%s, tag %d) precedes the frame that ends the session but never reached the implementation (%s)", p.idx, p.who, p.tag, b.deadWhy)
 			}
 		}
 	} else {
-		hx.Label("nego close delay timed out (subset oracle)")
+		hx.Label(c.Side + " close delay timed out (subset oracle)")
 	}
 	return o, nil
 }
@@ -416,7 +423,7 @@ func (r *srvRun) accountNego(f []byte) error {
 		return fmt.Errorf("reply %s for tag %d, which no request of the stream carries", ref9p.TypeName(m.Type), m.Tag)
 	}
 	if p.dead {
-		return fmt.Errorf("reply %s to frame %d (%s, tag %d, %d bytes), which follows (or is) the frame that exceeds the negotiated msize %d", ref9p.TypeName(m.Type), p.idx, p.who, m.Tag, r.b.frameLen(p.idx), r.c.Msize)
+		return fmt.Errorf("reply %s (%x) to frame %d (%s, tag %d, %d bytes) although %s", ref9p.TypeName(m.Type), clip(f), p.idx, p.who, m.Tag, r.b.frameLen(p.idx), r.b.deadWhy)
 	}
 	if _, dup := r.replies[m.Tag]; dup {
 		return fmt.Errorf("second reply (%s) for tag %d (frame %d, %s)", ref9p.TypeName(m.Type), m.Tag, p.idx, p.who)
